@@ -5,6 +5,7 @@ import OcppModel.DriverOcppJ
 import OcppModel.DriverWs
 import OcppModel.DriverCodec
 import OcppModel.DriverFine
+import OcppModel.DriverSFine
 
 /-! Line-protocol oracle: `driver <suite>` reads one operation per line on stdin and prints the model's
     observable output for each. -/
@@ -62,6 +63,7 @@ def main (args : List String) : IO UInt32 := do
   | ["l3s"] => loopGen stdin stdout Ocpp.Drv.stepL3S {}; pure 0
   | ["l3c"] => loopGen stdin stdout Ocpp.Drv.stepL3C {}; pure 0
   | ["cfine"] => loopGen stdin stdout Ocpp.Drv.stepFine none; pure 0
+  | ["sfine"] => loopGen stdin stdout Ocpp.DrvS.stepSFine none; pure 0
   | ["cdmon"] => loopGen stdin stdout Ocpp.Drv.stepCMon (some {}); pure 0
   | ["sdmon"] => loopGen stdin stdout Ocpp.Drv.stepSMon (some {}); pure 0
   | ["c03"] => loopPure stdin stdout Ocpp.Drv.stepC03; pure 0
